@@ -127,3 +127,94 @@ Example trickle_demo :
   let chunks := [[1; 2]; [3]; [4; 5]; [6]; [7]; [8; 9]; [10]; [11]; [12]; [13]; [14]; [15]; [16]; [17]; [18]; [19]; [20]] in
   well_sized (fst (trickle_layout 2 chunks)) = true /\ content (fst (trickle_layout 2 chunks)) = concat chunks.
 Proof. split; vm_compute; reflexivity. Qed.
+
+(* ---- no link to an empty piece of content when the chunker emits no empty chunk: the hypothesis (pos_sized) of the request
+   theorems - range reads (C05), preload (C06), depth-first request order (C20) - holds of every reference trickle DAG ---- *)
+From UV Require Import File.ReaderProofs File.BuilderProofs2 File.BuilderProofs3.
+
+Lemma rfill_extends rrec : forall n acc src, exists more, fst (rfill rrec n acc src) = acc ++ more.
+Proof.
+  induction n as [|n IH]; intros acc src; [exists []; cbn; rewrite app_nil_r; reflexivity|].
+  cbn [rfill]. destruct src as [|c r]; [exists []; cbn; rewrite app_nil_r; reflexivity|].
+  destruct (rrec (c :: r)) as [m src']. destruct (IH (acc ++ [m]) src') as (more & E).
+  exists (m :: more). rewrite E, <- app_assoc. reflexivity.
+Qed.
+
+Lemma rfill_nonempty rrec n acc src : src <> [] -> (1 <= n)%nat -> fst (rfill rrec n acc src) <> [].
+Proof.
+  intros Hs Hn. destruct n as [|n]; [lia|]. cbn [rfill]. destruct src as [|c r]; [congruence|].
+  destruct (rrec (c :: r)) as [m src']. destruct (rfill_extends rrec n (acc ++ [m]) src') as (more & E). rewrite E.
+  destruct acc; discriminate.
+Qed.
+
+Section TricklePos.
+  Variable W : nat.
+  Hypothesis HW : (1 <= W)%nat.
+
+  Definition prod_pos (rrec : list bytes -> meta * list bytes) : Prop :=
+    forall src, src <> [] -> Forall nonempty src -> mpos (fst (rrec src)) /\ Forall nonempty (snd (rrec src)).
+
+  Lemma rleaf_pos : prod_pos rleaf.
+  Proof.
+    intros [|c r] Hne Hs; [congruence|]. inversion Hs; subst. cbn [rleaf fst snd].
+    split; [apply mk_leaf_pos; assumption|assumption].
+  Qed.
+
+  Lemma rfill_pos rrec : prod_pos rrec -> forall n acc src, Forall mpos acc -> Forall nonempty src ->
+    Forall mpos (fst (rfill rrec n acc src)) /\ Forall nonempty (snd (rfill rrec n acc src)).
+  Proof.
+    intros Hp. induction n as [|n IH]; intros acc src Ha Hs; [cbn; auto|].
+    cbn [rfill]. destruct src as [|c r]; [cbn; auto|].
+    destruct (Hp (c :: r) ltac:(congruence) Hs) as [Hm Hr]. destruct (rrec (c :: r)) as [m src']. cbn [fst snd] in *.
+    apply IH; [apply Forall_app; split; [exact Ha|constructor; [exact Hm|constructor]]|exact Hr].
+  Qed.
+
+  Definition subs_pos (d : nat) : Prop := forall acc src, Forall mpos acc -> Forall nonempty src ->
+    Forall mpos (fst (subs W d acc src)) /\ Forall nonempty (snd (subs W d acc src)).
+
+  Lemma subs_extends d : forall acc src, exists more, fst (subs W d acc src) = acc ++ more.
+  Proof.
+    induction d as [|d IH]; intros acc src; [exists []; cbn; rewrite app_nil_r; reflexivity|].
+    rewrite subs_S. destruct (IH acc src) as (more & E). destruct (subs W d acc src) as [acc1 src1]. cbn [fst] in E. subst acc1.
+    destruct (rfill_extends (tnode W d) depthRepeat (acc ++ more) src1) as (more2 & E2).
+    exists (more ++ more2). rewrite E2, <- app_assoc. reflexivity.
+  Qed.
+
+  Lemma tnode_pos d : subs_pos d -> prod_pos (tnode W d).
+  Proof.
+    intros Hs src Hne Hsrc. unfold tnode.
+    destruct (rfill_pos rleaf rleaf_pos W [] src (Forall_nil _) Hsrc) as [L1 L2].
+    pose proof (rfill_nonempty rleaf W [] src Hne HW) as Lne.
+    destruct (rfill rleaf W [] src) as [layer s1]. cbn [fst snd] in *.
+    destruct (Hs layer s1 L1 L2) as [S1 S2]. destruct (subs_extends d layer s1) as (more & E).
+    destruct (subs W d layer s1) as [kids s2]. cbn [fst snd] in *.
+    split; [|exact S2]. apply mk_node_pos; [subst kids; destruct layer; [congruence|discriminate]|exact S1].
+  Qed.
+
+  Lemma subs_all_pos d : subs_pos d.
+  Proof.
+    induction d as [|d IH]; intros acc src Ha Hs; [cbn; auto|].
+    rewrite subs_S. destruct (IH acc src Ha Hs) as [S1 S2]. destruct (subs W d acc src) as [acc1 src1]. cbn [fst snd] in *.
+    apply (rfill_pos (tnode W d) (tnode_pos d IH) depthRepeat acc1 src1 S1 S2).
+  Qed.
+
+  Theorem trickle_pos_sized (chunks : list bytes) : chunks <> [] -> Forall nonempty chunks ->
+    pos_sized (fst (trickle_layout W chunks)) = true.
+  Proof.
+    intros Hne Hs. unfold trickle_layout.
+    destruct (rfill_pos rleaf rleaf_pos W [] chunks (Forall_nil _) Hs) as [L1 L2].
+    pose proof (rfill_nonempty rleaf W [] chunks Hne HW) as Lne.
+    destruct (rfill rleaf W [] chunks) as [layer s1]. cbn [fst snd] in *.
+    destruct (subs_all_pos (length chunks) layer s1 L1 L2) as [S1 _]. destruct (subs_extends (length chunks) layer s1) as (more & E).
+    destruct (subs W (length chunks) layer s1) as [kids s2]. cbn [fst snd] in *.
+    apply (mk_node_pos kids); [subst kids; destruct layer; [congruence|discriminate]|exact S1].
+  Qed.
+End TricklePos.
+
+(* a reference trickle DAG over non-empty chunks meets both hypotheses of the request theorems *)
+Theorem trickle_qualifies W (chunks : list bytes) : (1 <= W)%nat -> chunks <> [] -> Forall nonempty chunks ->
+  blen (concat chunks) < bound63 ->
+  well_sized (fst (trickle_layout W chunks)) = true /\ pos_sized (fst (trickle_layout W chunks)) = true.
+Proof.
+  intros HW Hne Hs Hb. split; [exact (proj1 (trickle_well_sized W HW chunks Hne Hb))|exact (trickle_pos_sized W HW chunks Hne Hs)].
+Qed.
